@@ -120,6 +120,8 @@ M = [
  ("c05-f14-revert", "C05", "fingerprint.go", "val := FingerprintValue(m.Raw[:end])", "val := FingerprintValue(m.Raw)"),
  ("c04-f14-revert", "C04", "integrity.go", "v := newHMAC(i, msg.Raw[:end], msg.Raw[len(msg.Raw):])", "v := newHMAC(i, msg.Raw, msg.Raw[len(msg.Raw):])"),
  ("c06-f20-revert", "C06", "errorcode.go", "uint16(value[errorCodeClassByte] & 0x07)", "uint16(value[errorCodeClassByte])"),
+ ("c09-f21-revert", "C09", "textattrs.go", "\tif maxLen >= 0 {\n\t\tif err := CheckOverflow(t, len(v), maxLen); err != nil {\n\t\t\treturn err\n\t\t}\n\t}", "\tif err := CheckOverflow(t, len(v), maxLen); err != nil {\n\t\treturn err\n\t}"),
+ ("c17-f22-revert", "C17", "client.go", "nw.ResolveUDPAddr(\"udp\", addr)", "net.ResolveUDPAddr(\"udp\", addr)"),
  ("c20-f17-revert", "C20", "integrity.go", "if err == nil || err == ErrIntegrityMismatch {", "if err == nil {"),
 ]
 
